@@ -438,6 +438,11 @@ theorem scale_reduce (M d f : Nat) :
 
 theorem lt_mul_one_add {x E : ℚ} (hx : 0 < x) (hE : 0 < E) : x < x * (1 + E) := by nlinarith
 
+/-- `pow5` is exact as long as `5^n` fits the 576-bit helper float, i.e. for `n ≤ 248`
+    (`5^248 < 2^576 < 5^249`): the table for `n ≤ 27`, beyond it the square-and-multiply
+    loop never has to round. A finite table of 249 entries, evaluated by the kernel. -/
+theorem pow5_exact : ∀ n < 249, pow5 n = BF.fin false (5 ^ n) 0 := by decide +kernel
+
 /-- What `Float.scan` builds for a non-zero decimal mantissa `M` with `f` fractional
     digits and no exponent part. -/
 def plainFloat (neg : Bool) (M f : Nat) : BF :=
@@ -447,7 +452,7 @@ def plainFloat (neg : Bool) (M f : Nat) : BF :=
 /-- Core arithmetic fact behind C18: parse (one rounded division by `5^f`),
     multiply by `10^d` (rounded again), truncate — the result is exactly
     `⌊M·10^d / 10^f⌋` whenever `M·10^(d-f) < 2^510`. -/
-theorem plain_scaled (neg : Bool) (M f d : Nat) (hM : 0 < M) (hf : f ≤ 27)
+theorem plain_scaled (neg : Bool) (M f d : Nat) (hM : 0 < M) (hf : f ≤ 248)
     (hbound : M * 10 ^ (d - f) < 2 ^ 510) :
     ∃ m e, mul .away prec (plainFloat neg M f) (baseFloat (d : Int)) = .fin neg m e ∧
       toInt (.fin neg m e) =
@@ -461,7 +466,7 @@ theorem plain_scaled (neg : Bool) (M f d : Nat) (hM : 0 < M) (hf : f ≤ 27)
       lt_of_le_of_lt (Nat.le_mul_of_pos_left _ hM) hbound
     have h2 : 2 ^ (d - f) ≤ 10 ^ (d - f) := Nat.pow_le_pow_left (by norm_num) _
     exact (Nat.pow_lt_pow_iff_right (by norm_num : 1 < 2)).mp (lt_of_le_of_lt h2 h1)
-  have hd : d < 600 := by omega
+  have hd : d < 800 := by omega
   have hbase : baseFloat (d : Int) = .fin false (10 ^ d) 0 := by
     unfold baseFloat; rw [Int.toNat_natCast]
   have hbbits : bitLen (10 ^ d) ≤ 4 * d + 1 := bitLen_pow_le 10 4 d (by norm_num)
@@ -483,7 +488,7 @@ theorem plain_scaled (neg : Bool) (M f d : Nat) (hM : 0 < M) (hf : f ≤ 27)
       · rw [hmag]; simp only [pow_zero, div_one]
         exact lt_mul_one_add hMQ hE
     · rw [if_neg hf0]
-      have hp5 : pow5 f = .fin false (5 ^ f) 0 := by unfold pow5; rw [if_pos hf]
+      have hp5 : pow5 f = .fin false (5 ^ f) 0 := pow5_exact f (by omega)
       rw [hp5]
       have h5bits : bitLen (5 ^ f) ≤ 3 * f + 1 := bitLen_pow_le 5 3 f (by norm_num)
       obtain ⟨m', e', h, hpos, s1, s2, b1, b2, b3⟩ := quo_away_spec prec neg M (5 ^ f) (-(f : Int)) hp1
